@@ -161,10 +161,89 @@ fn project(src: &str) -> Value {
     }
 }
 
+// ---------------------------------------------------------------- compile() into a real (temporary) destination
+/// state: "absent" | "existing" (file with `existing` content) | "dir" | "dir-existing" (directory containing
+/// generated.<ext> with `existing` content) | "missing-parent".  Returns the result of compile(), the final content
+/// of the destination file (if any) and the text compile_to_string() returns for the same sources.
+fn compile_file(cmd: &Value) -> Value {
+    use std::sync::atomic::{AtomicUsize, Ordering};
+    static N: AtomicUsize = AtomicUsize::new(0);
+    let sources: Vec<String> = cmd["sources"].as_array().map(|a| a.iter().filter_map(|s| s.as_str().map(|s| s.to_string())).collect()).unwrap_or_default();
+    let backend = cmd["backend"].as_str().unwrap_or("rasn");
+    let state = cmd["state"].as_str().unwrap_or("absent");
+    let existing = cmd["existing"].as_str().unwrap_or("");
+    let ext = if backend == "ts" { ".ts" } else { ".rs" };
+    let root = std::env::temp_dir().join(format!("verif-c20-{}-{}", std::process::id(), N.fetch_add(1, Ordering::SeqCst)));
+    let _ = std::fs::remove_dir_all(&root);
+    if std::fs::create_dir_all(&root).is_err() {
+        return json!({"error": "cannot create scratch directory"});
+    }
+    let (dest, file) = match state {
+        "existing" => {
+            let f = root.join("out.txt");
+            let _ = std::fs::write(&f, existing);
+            (f.clone(), f)
+        }
+        "dir" => {
+            let d = root.join("outdir");
+            let _ = std::fs::create_dir_all(&d);
+            (d.clone(), d.join(format!("generated{ext}")))
+        }
+        "dir-existing" => {
+            let d = root.join("outdir");
+            let _ = std::fs::create_dir_all(&d);
+            let f = d.join(format!("generated{ext}"));
+            let _ = std::fs::write(&f, existing);
+            (d, f)
+        }
+        "missing-parent" => {
+            let f = root.join("no-such-dir").join("out.txt");
+            (f.clone(), f)
+        }
+        _ => {
+            let f = root.join("out.txt");
+            (f.clone(), f)
+        }
+    };
+    let expected = match backend {
+        "ts" => add_sources(Compiler::<TypescriptBackend, _>::new(), &sources).compile_to_string().ok().map(|r| r.generated),
+        _ => add_sources(Compiler::<RasnBackend, _>::new(), &sources).compile_to_string().ok().map(|r| r.generated),
+    };
+    let res = catch_unwind(AssertUnwindSafe(|| match backend {
+        "ts" => add_sources(Compiler::<TypescriptBackend, _>::new(), &sources).set_output_mode(rasn_compiler::OutputMode::SingleFile(dest.clone())).compile().map(|w| w.len()).map_err(|e| format!("{e:?}")),
+        _ => add_sources(Compiler::<RasnBackend, _>::new(), &sources).set_output_mode(rasn_compiler::OutputMode::SingleFile(dest.clone())).compile().map(|w| w.len()).map_err(|e| format!("{e:?}")),
+    }));
+    let content = std::fs::read_to_string(&file).ok();
+    let entries: Vec<String> = walk(&root).into_iter().map(|p| p.strip_prefix(&root).map(|q| q.display().to_string()).unwrap_or_default()).collect();
+    let _ = std::fs::remove_dir_all(&root);
+    match res {
+        Ok(Ok(n)) => json!({"result": "ok", "warnings": n, "content": content, "expected": expected, "entries": entries}),
+        Ok(Err(e)) => json!({"result": "err", "error": e, "content": content, "expected": expected, "entries": entries}),
+        Err(_) => json!({"result": "panic", "content": content, "expected": expected, "entries": entries}),
+    }
+}
+
+fn walk(dir: &std::path::Path) -> Vec<std::path::PathBuf> {
+    let mut out = vec![];
+    if let Ok(rd) = std::fs::read_dir(dir) {
+        for e in rd.flatten() {
+            let p = e.path();
+            if p.is_dir() {
+                out.extend(walk(&p));
+            } else {
+                out.push(p);
+            }
+        }
+    }
+    out.sort();
+    out
+}
+
 // ---------------------------------------------------------------- public kernels called directly
 fn handle(cmd: &Value) -> Value {
     match cmd["cmd"].as_str().unwrap_or("") {
         "compile" => compile(cmd),
+        "compile_file" => compile_file(cmd),
         "project" => project(cmd["text"].as_str().unwrap_or("")),
         "ping" => json!({"pong": true}),
         other => json!({"error": format!("unknown cmd {other}")}),
